@@ -23,7 +23,8 @@ Record sobs := mkSO {
   ob_bal : list Z;                 (* per account index *)
   ob_pool : Z;
   ob_anom : bool;                  (* some id is held by two stores *)
-  ob_applied : list bool           (* per proposal index: its configuration update has been applied *)
+  ob_applied : list bool;          (* per proposal index: its configuration update has been applied *)
+  ob_reload : bool                 (* this observation was taken right after a relaunch from the exported state *)
 }.
 
 Global Instance pobs_eq_dec : EqDecision pobs. Proof. solve_decision. Defined.
@@ -57,23 +58,35 @@ Definition proj (np na : nat) (s : state) : sobs :=
        (map (fun i => match g_props s !! i with Some p => Some (proj_prop na p) | None => None end) (idx np))
        (map (fun a => bal s a) (idx na)) (g_pool s)
        (g_anom s || existsb (fun i => match g_props s !! i with Some p => negb (p_extra p =? 0) | None => false end) (idx np))
-       (map (fun i => bool_decide (i ∈ g_applied s)) (idx np)).
+       (map (fun i => bool_decide (i ∈ g_applied s)) (idx np)) false.
+Definition as_reload (o : sobs) : sobs := mkSO (ob_h o) (ob_props o) (ob_bal o) (ob_pool o) (ob_anom o) (ob_applied o) true.
 
 (* ---- model run: per-op ok flags and the projection after every EndBlock ---- *)
-Fixpoint drive (np na : nat) (s : state) (ts : list txop) : list bool * list sobs :=
+Fixpoint drive (np na : nat) (s : state) (ts : list hop) : list bool * list sobs :=
   match ts with
   | [] => ([], [])
   | t :: r =>
-      let '(s1, ok, _) := step s t in
+      let '(s1, ok, _) := hstep s t in
       let '(oks, obs) := drive np na s1 r in
-      (ok :: oks, match t_op t with OEnd => proj np na s1 :: obs | _ => obs end)
+      (ok :: oks, match t with
+                  | HOp x => match t_op x with OEnd => proj np na s1 :: obs | _ => obs end
+                  | HReload _ _ _ => as_reload (proj np na s1) :: obs
+                  end)
+  end.
+
+(* the transactions of a history with the implementation's ok flags (relaunch markers dropped) *)
+Fixpoint txs_of (hs : list hop) (oks : list bool) : list txop * list bool :=
+  match hs, oks with
+  | HOp t :: r, ok :: oks' => let '(ts, bs) := txs_of r oks' in (t :: ts, ok :: bs)
+  | HReload _ _ _ :: r, _ :: oks' => txs_of r oks'
+  | _, _ => ([], [])
   end.
 
 Record gcase := mkCase {
   c_np : nat; c_na : nat;
   c_init : list Z;          (* initial balances per account index *)
   c_pool : Z;               (* initial fee pool *)
-  c_ops : list txop;
+  c_ops : list hop;
   c_ok : list bool;         (* implementation: ok per op *)
   c_obs : list sobs         (* implementation: observation after every EndBlock *)
 }.
@@ -247,10 +260,38 @@ Fixpoint props_viol (bi : Z) (h : Z) (i : Z) (info : binfo) (neg drift : list N)
       ++ props_viol bi h (i + 1) info neg drift nfin a' b'
   end.
 
+(* import fidelity (codes 14 / 15): right after a relaunch every proposal must be what it was before the export —
+   same stores, status, outcome, type, proposer, goal, pass percentage, total, funder records and above all the same
+   VOTES (validator, power, opinion: the tally after the import equals the tally before the export); the deadlines of
+   an active proposal are shifted by the exported version [ver = height before - 0], the others are unchanged *)
+Definition import_viol (ver : Z) (a b : option pobs) : list Z :=
+  match a, b with
+  | None, None => []
+  | Some pa, Some pb =>
+      (if bool_decide (ob_votes pa = ob_votes pb) then [] else [14]) ++
+      (if (ob_stores pa =? ob_stores pb) && (ob_status pa =? ob_status pb) && (ob_outcome pa =? ob_outcome pb) &&
+          (ob_type pa =? ob_type pb) && (ob_proposer pa =? ob_proposer pb) && (ob_goal pa =? ob_goal pb) &&
+          (ob_pass pa =? ob_pass pb) && (ob_total pa =? ob_total pb) && bool_decide (ob_indiv pa = ob_indiv pb) &&
+          (if ob_stores pa =? 1
+           then (ob_fdl pb =? Z.max 0 (ob_fdl pa - ver)) && (ob_vdl pb =? Z.max 0 (ob_vdl pa - ver))
+           else (ob_fdl pb =? ob_fdl pa) && (ob_vdl pb =? ob_vdl pa))
+       then [] else [15])
+  | _, _ => [15]
+  end.
+Fixpoint imports_viol (bi i ver : Z) (a b : list (option pobs)) : list Z :=
+  match a, b with
+  | pa :: a', pb :: b' => flat_map (fun code => [bi; i; code; 0]) (import_viol ver pa pb) ++ imports_viol bi (i + 1) ver a' b'
+  | [], [] => []
+  | _, _ => [bi; i; 15; 0]
+  end.
+
 Fixpoint obs_viol (bi : Z) (prev : sobs) (obs : list sobs) (infos : list binfo) (negs drifts : list (list N)) : list Z :=
   match obs with
   | [] => []
   | b :: r =>
+      if ob_reload b then
+        imports_viol bi 0 (ob_h prev) (ob_props prev) (ob_props b) ++ obs_viol (bi + 1) b r infos negs drifts
+      else
       let info := match infos with p :: _ => p | [] => bi_empty end in
       let drift := match drifts with n :: _ => n | [] => [] end in
       props_viol bi (ob_h b) 0 info (match negs with n :: _ => n | [] => [] end) drift (newly_finalized (ob_props prev) (ob_props b)) (ob_props prev) (ob_props b) ++
@@ -269,9 +310,10 @@ Fixpoint obs_viol (bi : Z) (prev : sobs) (obs : list sobs) (infos : list binfo) 
   end.
 
 Definition case_monitor (ci : Z) (c : gcase) : list Z :=
-  let s0 := mkSO 0 (map (fun _ => None) (idx (c_np c))) (c_init c) (c_pool c) false (map (fun _ => false) (idx (c_np c))) in
-  let v := obs_viol 0 s0 (c_obs c) (block_infos (c_ops c) (c_ok c) bi_empty)
-                    (neg_cum (c_ops c) (c_ok c) []) (drift_cum (c_ops c) (c_ok c) [] []) in
+  let s0 := mkSO 0 (map (fun _ => None) (idx (c_np c))) (c_init c) (c_pool c) false (map (fun _ => false) (idx (c_np c))) false in
+  let '(txs, oks) := txs_of (c_ops c) (c_ok c) in
+  let v := obs_viol 0 s0 (c_obs c) (block_infos txs oks bi_empty)
+                    (neg_cum txs oks []) (drift_cum txs oks [] []) in
   (* flatten to (case, block, proposal, code, class) *)
   (fix go (l : list Z) : list Z :=
      match l with
